@@ -7,6 +7,10 @@
 //!   memo <expr>                     `Memo::new`
 //!   mount <view>                    `leptos::mount::mount_to_renderer(&root, ..)`
 //!   set <id> <v> | poll <i> | idle | dispose
+//!   ares <expr>                     `AsyncDerived::new` over signals (before `mount`): every fetch stays pending until
+//!   resolve <rid>                   … this op completes the resource's LATEST fetch with the value its expression had when the
+//!                                   fetch started.  Views with `sus` / `tra` ("S views"): every op runs the executor to idle and prints
+//!                                   `sdom=<the DOM without ids and counters>`; `poll` is not an op of theirs
 //!   setl <sid> <v>                  write every live component-local signal created by `sc <sid> s ..`
 //!                                   (through the handles the harness keeps; disposed ones are skipped)
 //! <expr> prefix tokens: L<n> | R<id> | add e e | mulc <k> e | ite e e e
@@ -26,6 +30,9 @@
 //!   eb <view>               `<ErrorBoundary fallback=|_| "error">{view}</ErrorBoundary>`
 //!   res <expr> <expr>       `move || if c != 0 { Err(HxErr) } else { Ok(v.to_string()) }`: a `Result` leaf (throws to the
 //!                           enclosing boundary while it is `Err`, renders the `()` placeholder)
+//!   sus <view> | tra <view> `<Suspense fallback="wait">` / `<Transition fallback="wait">` over the view
+//!   aw <rid>                `move || Suspend::new(async move { resource.await.to_string() })`: reads the resource defined by the
+//!                           <rid>-th `ares` line (only below a `sus` / `tra`)
 //!   susp <expr> <view>      `<Suspense fallback="wait">` over an `AsyncDerived` of the expression (resolves after one more poll), children `(value, view)`   (implementation only)
 //!   errb <expr> <view>      `<ErrorBoundary>` over `move || if e != 0 { Err } else { Ok(view) }` (implementation only)
 //! <attr>: as <name> <hex> | ad <name> <expr> | ac <name> <expr> | ay <name> <expr>
@@ -80,6 +87,12 @@ pub enum ViewD {
     Eb(Box<ViewD>),
     /// a `Result` leaf: `Err` while the first expression is non-zero, else `Ok(second.to_string())`
     Res(Expr, Expr),
+    /// `<Suspense fallback="wait">`
+    Sus(Box<ViewD>),
+    /// `<Transition fallback="wait">`
+    Tra(Box<ViewD>),
+    /// a `Suspend` leaf over the resource
+    Aw(usize),
     Susp(Expr, Box<ViewD>),
     Errb(Expr, Box<ViewD>),
 }
@@ -239,6 +252,9 @@ pub fn parse_view(t: &mut Toks) -> Option<ViewD> {
         }
         "eb" => ViewD::Eb(Box::new(parse_view(t)?)),
         "res" => ViewD::Res(parse_expr(t)?, parse_expr(t)?),
+        "sus" => ViewD::Sus(Box::new(parse_view(t)?)),
+        "tra" => ViewD::Tra(Box::new(parse_view(t)?)),
+        "aw" => ViewD::Aw(t.next()?.parse().ok()?),
         "susp" => ViewD::Susp(parse_expr(t)?, Box::new(parse_view(t)?)),
         "errb" => ViewD::Errb(parse_expr(t)?, Box::new(parse_view(t)?)),
         _ => return None,
@@ -279,6 +295,9 @@ pub fn show_view(v: &ViewD) -> String {
         ViewD::Scope(sid, LDef::Sig(v), kid) => format!("sc {sid} s {v} {}", show_view(kid)),
         ViewD::Eb(k) => format!("eb {}", show_view(k)),
         ViewD::Res(c, e) => format!("res {} {}", show_expr(c), show_expr(e)),
+        ViewD::Sus(k) => format!("sus {}", show_view(k)),
+        ViewD::Tra(k) => format!("tra {}", show_view(k)),
+        ViewD::Aw(r) => format!("aw {r}"),
         ViewD::Susp(e, a) => format!("susp {} {}", show_expr(e), show_view(a)),
         ViewD::Errb(e, a) => format!("errb {} {}", show_expr(e), show_view(a)),
     }
@@ -392,6 +411,7 @@ fn struct_guards(defs: &[Def], env: &[i64], v: &ViewD, out: &mut Vec<Guard>) {
         ViewD::For(sel, _) => out.push(Guard::Reads(reads_of(defs, sel))),
         // views with component-local state are outside the guard oracle (`is_x`)
         ViewD::ForR(..) | ViewD::ForE(..) | ViewD::Scope(..) | ViewD::Eb(..) | ViewD::Res(..) => {}
+        ViewD::Sus(..) | ViewD::Tra(..) | ViewD::Aw(..) => {}
         ViewD::Susp(e, a) => {
             out.push(Guard::Reads(reads_of(defs, e)));
             struct_guards(defs, env, a, out)
@@ -454,14 +474,15 @@ pub fn ref_render(defs: &[Def], env: &[i64], v: &ViewD, path: &[Guard], out: &mu
         }
         // implementation-only constructors are not covered by the untouched-nodes oracle
         ViewD::Susp(..) | ViewD::Errb(..) | ViewD::ForR(..) | ViewD::ForE(..) | ViewD::Scope(..) | ViewD::Eb(..) | ViewD::Res(..) => {}
+        ViewD::Sus(..) | ViewD::Tra(..) | ViewD::Aw(..) => {}
     }
 }
 
 pub fn has_impl_only(v: &ViewD) -> bool {
     match v {
         ViewD::Susp(..) | ViewD::Errb(..) => true,
-        ViewD::Text(_) | ViewD::Unit | ViewD::DynText(_) | ViewD::For(..) | ViewD::Res(..) => false,
-        ViewD::Elem(_, _, k) | ViewD::ForR(_, _, k) | ViewD::ForE(_, _, k) | ViewD::Scope(_, _, k) | ViewD::Eb(k) => has_impl_only(k),
+        ViewD::Text(_) | ViewD::Unit | ViewD::DynText(_) | ViewD::For(..) | ViewD::Res(..) | ViewD::Aw(_) => false,
+        ViewD::Elem(_, _, k) | ViewD::ForR(_, _, k) | ViewD::ForE(_, _, k) | ViewD::Scope(_, _, k) | ViewD::Eb(k) | ViewD::Sus(k) | ViewD::Tra(k) => has_impl_only(k),
         ViewD::Seq(a, b) | ViewD::Either(_, a, b) | ViewD::Show(_, a, b) => has_impl_only(a) || has_impl_only(b),
     }
 }
@@ -470,8 +491,28 @@ pub fn has_impl_only(v: &ViewD) -> bool {
 pub fn is_x(v: &ViewD) -> bool {
     match v {
         ViewD::ForR(..) | ViewD::ForE(..) | ViewD::Scope(..) | ViewD::Eb(..) | ViewD::Res(..) => true,
+        ViewD::Sus(..) | ViewD::Tra(..) | ViewD::Aw(..) => true,
         ViewD::Text(_) | ViewD::Unit | ViewD::DynText(_) | ViewD::For(..) => false,
         ViewD::Elem(_, _, k) | ViewD::Susp(_, k) | ViewD::Errb(_, k) => is_x(k),
         ViewD::Seq(a, b) | ViewD::Either(_, a, b) | ViewD::Show(_, a, b) => is_x(a) || is_x(b),
+    }
+}
+
+/// the view has a `<Suspense>` / `<Transition>` (an "S view": observed at idle points only)
+pub fn is_s(v: &ViewD) -> bool {
+    match v {
+        ViewD::Sus(..) | ViewD::Tra(..) | ViewD::Aw(..) => true,
+        ViewD::Text(_) | ViewD::Unit | ViewD::DynText(_) | ViewD::For(..) | ViewD::Res(..) => false,
+        ViewD::Elem(_, _, k) | ViewD::Susp(_, k) | ViewD::Errb(_, k) | ViewD::ForR(_, _, k) | ViewD::ForE(_, _, k) | ViewD::Scope(_, _, k) | ViewD::Eb(k) => is_s(k),
+        ViewD::Seq(a, b) | ViewD::Either(_, a, b) | ViewD::Show(_, a, b) => is_s(a) || is_s(b),
+    }
+}
+
+pub fn has_tra(v: &ViewD) -> bool {
+    match v {
+        ViewD::Tra(..) => true,
+        ViewD::Text(_) | ViewD::Unit | ViewD::DynText(_) | ViewD::For(..) | ViewD::Res(..) | ViewD::Aw(_) => false,
+        ViewD::Elem(_, _, k) | ViewD::Susp(_, k) | ViewD::Errb(_, k) | ViewD::ForR(_, _, k) | ViewD::ForE(_, _, k) | ViewD::Scope(_, _, k) | ViewD::Eb(k) | ViewD::Sus(k) => has_tra(k),
+        ViewD::Seq(a, b) | ViewD::Either(_, a, b) | ViewD::Show(_, a, b) => has_tra(a) || has_tra(b),
     }
 }
